@@ -7,3 +7,45 @@ PROPERTY = "C03"
 
 def cases(tier):
     return tree_cases(PROPERTY, tier, hibernation_values=(False,)) + run_cases(PROPERTY, tier)
+
+
+def h_minimize(P, nmax=60, maxiter=None, seed=1):
+    """The real pyhms.minimize with a *symbolic* budget N: every comparison against the budget forks, so the explorer visits
+    every distinct behaviour of the run as a function of N (1..nmax) and the obligations are decided per class of N."""
+    import numpy as np
+    from pyhms.hms import minimize
+
+    calls = []
+
+    def fun(x):
+        x = np.asarray(x, dtype=np.float64)
+        v = float(np.sum((x - 0.25) ** 2))
+        calls.append((tuple(x.tolist()), v))
+        return v
+
+    bounds = np.array([[-2.0, 1.0], [-1.0, 3.0]])
+    if maxiter is None:
+        N = P.int("maxfun", 1, nmax)
+        res = minimize(fun, bounds, maxfun=N, seed=seed)
+        P.oblige("C03.minimize_budget_is_hard", len(calls) <= N)
+    else:
+        res = minimize(fun, bounds, maxiter=maxiter, seed=seed)
+        P.oblige("C05.minimize_nit_equals_maxiter", res.nit == maxiter)
+    P.oblige("C03.minimize_nfev_equals_calls", res.nfev == len(calls))
+    P.oblige("C04.minimize_fun_is_minimum_of_all_calls", res.fun == min(v for _, v in calls))
+    P.oblige("C02.minimize_fun_is_value_at_x", any(tuple(np.asarray(res.x).tolist()) == x and res.fun == v for x, v in calls))
+    P.oblige("C01.minimize_x_in_bounds", bool(np.all(res.x >= bounds[:, 0]) and np.all(res.x <= bounds[:, 1])))
+    P.oblige("C01.minimize_all_calls_in_bounds", all(bounds[j, 0] <= x[j] <= bounds[j, 1] for x, _ in calls for j in range(2)))
+
+
+h_minimize.env_opts = {"rng": "real"}
+_tree_only = cases
+
+
+def cases(tier):  # noqa: F811
+    cs = _tree_only(tier)
+    nmax = 60 if tier == "quick" else 200
+    for seed in ((1,) if tier == "quick" else (1, 2, 3)):
+        cs.append(dict(name=f"minimize.maxfun.sym.seed{seed}", fn=h_minimize, params=dict(nmax=nmax, seed=seed), profile="fp", budget_s=1500, weight=50))
+    cs.append(dict(name="minimize.maxiter2", fn=h_minimize, params=dict(maxiter=2), profile="fp", budget_s=600))
+    return cs
